@@ -30,6 +30,7 @@ import FastPasta.Props.C11
 import FastPasta.Props.C01
 import FastPasta.Props.C07
 import FastPasta.Proofs.StateSrcTie
+import FastPasta.Proofs.LinkSrcTie
 namespace FastPasta
 namespace C02
 
@@ -1783,6 +1784,50 @@ theorem cdw_index_rule_after_conforming_prefix (cfg : CheckCfg) (hits : cfg.itsC
       have := hsub _ hmem
       simpa [mkErr, hpos] using this
 
+
+
+/-! ### tie by translation: the per-word handlers of `CdpRunningValidator` (cdp_running.rs → `Spec/LinkSrcGen.lean`) -/
+/-- whenever the source validator `v` stands for the model state `s` (`SrcTie.Abs`: same running flag, same current word position,
+    same header, same stored IHW / TDHs / TDT / DDW0 / CDW), each translated handler leaves it standing for the model's next state and
+    has sent exactly the model's messages — same code, the tracker's word position, quoting the word:
+    `preprocess_ihw` = `preIhw` ([E30]); `preprocess_ddw0` with `check_rdh_at_ddw0` = `preDdw0` ([E60], [E110], [E111] only with the
+    stateful checks on); `process_cdw` = the calibration-word branch of `preData` ([E81] iff a CDW was stored, the user fields differ
+    and the index is not 0; nothing and no store without the stateful checks); `check_rdh_at_initial_ihw` ([E12]),
+    `check_tdh_no_continuation` ([E42]/[E444]/[E445]/[E44]), `check_tdh_continuation` ([E41]/[E441]/[E442]/[E443]) and
+    `check_tdh_by_was_tdt_packet_done_true` ([E440]) = the model's lists for the TDH just stored -/
+theorem word_handlers_src (cfg : CheckCfg) (v : SrcLink.CdpRunningValidator) (s : CdpSt) (c : SrcRdh.RdhCru) (w : Bytes)
+    (h : SrcTie.Abs cfg v s c) :
+    (SrcTie.Abs cfg (v.preprocess_ihw w).2 (preIhw s w).1 c ∧
+      SrcTie.outMsgs (v.preprocess_ihw w).2.f_out = SrcTie.outMsgs v.f_out ++ (preIhw s w).2) ∧
+    (SrcTie.Abs cfg (v.preprocess_ddw0 w).2 (preDdw0 cfg s w).1 c ∧
+      SrcTie.outMsgs (v.preprocess_ddw0 w).2.f_out = SrcTie.outMsgs v.f_out ++ (preDdw0 cfg s w).2) ∧
+    (SrcTie.Abs cfg (v.process_cdw w).2 (SrcTie.cdwStep cfg s w).1 c ∧
+      SrcTie.outMsgs (v.process_cdw w).2.f_out = SrcTie.outMsgs v.f_out ++ (SrcTie.cdwStep cfg s w).2 ∧
+      ((s.startOfData && wordId w == ID_CDW) = true →
+        preData cfg s w = .ok ({ (SrcTie.cdwStep cfg s w).1 with startOfData := false }, (SrcTie.cdwStep cfg s w).2))) ∧
+    (SrcTie.Abs cfg (v.check_rdh_at_initial_ihw w).2 s c ∧
+      SrcTie.outMsgs (v.check_rdh_at_initial_ihw w).2.f_out =
+        SrcTie.outMsgs v.f_out ++ (if s.rdh.stopBit != 0 then [mkErr s "E12" w] else [])) ∧
+    (s.tdh = some w →
+      (SrcTie.Abs cfg (v.check_tdh_no_continuation w).2 s c ∧
+        SrcTie.outMsgs (v.check_tdh_no_continuation w).2.f_out = SrcTie.outMsgs v.f_out ++ tdhNoContinuationChecks s w) ∧
+      (SrcTie.Abs cfg (v.check_tdh_continuation w).2 s c ∧
+        SrcTie.outMsgs (v.check_tdh_continuation w).2.f_out = SrcTie.outMsgs v.f_out ++ tdhContinuationChecks s w) ∧
+      (SrcTie.Abs cfg (v.check_tdh_by_was_tdt_packet_done_true w).2 s c ∧
+        SrcTie.outMsgs (v.check_tdh_by_was_tdt_packet_done_true w).2.f_out = SrcTie.outMsgs v.f_out ++
+          (match s.prevTdh with | some prev => if tdhBc prev > tdhBc w then [mkErr s "E440" w] else [] | none => []))) :=
+  ⟨SrcTie.preprocess_ihw_eq cfg v s c w h, SrcTie.preprocess_ddw0_eq cfg v s c w h,
+   ⟨(SrcTie.process_cdw_eq cfg v s c w h).1, (SrcTie.process_cdw_eq cfg v s c w h).2, SrcTie.preData_cdw cfg s w⟩,
+   SrcTie.check_rdh_at_initial_ihw_eq cfg v s c w h,
+   fun hcur => ⟨SrcTie.check_tdh_no_continuation_eq cfg v s c w h hcur, SrcTie.check_tdh_continuation_eq cfg v s c w h hcur,
+     SrcTie.check_tdh_after_packet_done_eq cfg v s c w h hcur⟩⟩
+
+/-- non-vacuity: a freshly built source validator stands for the model's state at the first word of a packet -/
+example : SrcTie.Abs { running := true }
+    { f_running_checks_enabled := true, f_tracker := { f_payload_mem_pos := 64, f_gbt_word_counter := 1, f_gbt_word_padding_size_bytes := 0, f_is_start_of_data := true },
+      f_rdh_validator := SrcState.ItsRdhValidator.new default, f_status_words := SrcState.StatusWordContainer.new_const, f_out := [] }
+    { payloadPos := 64, wordCount := 1, slot := 10, rdh := SrcTie.toModel default } default :=
+  ⟨rfl, by decide, rfl, rfl, rfl, rfl, rfl, rfl, rfl⟩
 
 
 /-! ### tie by translation: the state-dependent rule checks are the source's (`Spec/StateSrcGen.lean`) -/
